@@ -60,6 +60,9 @@ func (r *Router) handleIncomingTraffic(w *mgr.WorkerCtx, f frame.Frame) error {
 	// Check integrity.
 	switch {
 	// Note: The frame is returned to the pool by the caller when an error is returned.
+	case packetData[0]>>4 != 6:
+		return errors.New("invalid packet: not an IPv6 packet")
+
 	case src != f.SrcIP():
 		return errors.New("invalid packet: src IPs do not match")
 
